@@ -21,7 +21,9 @@ class Boom(Exception):
 class BadRepr(object):
     """an argument whose repr() raises something that is not a TypeError: string / pickle(repr) / digest keymaps cannot build a key"""
     def __init__(self, n): self.n = n
-    def __repr__(self): raise ValueError('no repr for %d' % self.n)
+    def __repr__(self):
+        # a KeyError collides with the wrappers' own control flow (`except KeyError`): every other argument raises that one
+        raise (KeyError if self.n % 2 else ValueError)('no repr for %d' % self.n)
     __str__ = __repr__
 
 
@@ -101,7 +103,7 @@ def gen_cfg(r, tier, idx):
     # un-keyable arguments: `hash` fails inside the keymap, `raw` yields an unhashable key
     malformed = blk % 4 == 1
     if malformed:
-        keymap = ['hash', 'raw', 'string'][(blk // 4) % 3]
+        keymap = ['raw', 'hash', 'raw', 'string'][(blk // 4) % 4]
     if backend in DISK_BACKENDS:
         keymap = r.choice(['string', 'md5', 'string_nonflat'])
     # mostly more keys than slots, so that evictions and reloads happen
@@ -144,10 +146,14 @@ def _gen_ops(r, cfg):
             continue
         if hot and r.random() < 0.7: x = x % 2
         if p < 0.74:
-            ops.append(['call', x])
+            # (malformed stratum: one call in seven cannot be keyed)
+            ops.append(['callbad' if (cfg['malformed'] and r.random() < 0.15) else 'call', x])
             if x not in recent[-3:]: recent.append(x)
         elif p < 0.78:
-            if cfg['malformed']: ops.append(['callbad', x])
+            if cfg['malformed']:
+                # an un-keyable call, often followed at once by an ordinary one (whatever the failed call left in the bookkeeping is then the most recent thing)
+                ops.append(['callbad', x])
+                if r.random() < 0.6: ops.append(['call', r.randrange(nk)])
             else: ops.append(['call', x])
         elif p < 0.81: ops.append(['loadAll'])
         elif p < 0.84: ops.append(['dumpAll'])
